@@ -43,6 +43,9 @@ func caseLines(s scn, ro *runOut) []string {
 	if s.Writer == "unpack-zip-big" {
 		return bigLines(s, ro)
 	}
+	if isTwo(s.Writer) {
+		return twoLines(s)
+	}
 	lines := []string{s.line()}
 	if ro.err != "" || ro.res == nil {
 		return lines
@@ -179,7 +182,7 @@ func (e *c17exec) Do(line string) string {
 		if ro.err != "" {
 			return "harness-error " + strings.ReplaceAll(ro.err, "\n", " ")
 		}
-		if ro.big != nil {
+		if ro.big != nil || ro.two != nil {
 			return "ok"
 		}
 		e.init = map[string]bool{}
@@ -201,6 +204,12 @@ func (e *c17exec) Do(line string) string {
 				return "publish"
 			}
 			return "no-publish"
+		}
+		return "bad-op"
+	}
+	if e.ro != nil && e.ro.two != nil {
+		if f[0] == "two" {
+			return twoAnswer(e.ro.two)
 		}
 		return "bad-op"
 	}
@@ -595,6 +604,17 @@ func monitor(c hxlib.Case, outs []string) (vs []hxlib.Violation) {
 		}
 		return nil
 	}
+	if isTwo(s.Writer) {
+		for _, v := range twoMonitor(s, c.Lines, outs) {
+			vs = append(vs, hxlib.Violation{Sig: v.Sig, What: v.What, Lines: c.Lines, Output: outs})
+		}
+		for _, o := range outs {
+			if strings.HasPrefix(o, "PANIC") {
+				vs = append(vs, hxlib.Violation{Sig: "C17:" + s.Writer + ":panic", What: o, Lines: c.Lines, Output: outs})
+			}
+		}
+		return vs
+	}
 	var d destInfo
 	haveDest := false
 	initial := map[string]string{}
@@ -804,7 +824,15 @@ func generate(r *hxlib.Run, emit func(hxlib.Case)) {
 		cacheMu.Lock()
 		runCache[lines[0]] = ro
 		cacheMu.Unlock()
-		nt := (ro.res != nil && len(ro.res.Events) > 0) || ro.big != nil
+		nt := (ro.res != nil && len(ro.res.Events) > 0) || ro.big != nil || ro.two != nil
+		if ro.two != nil {
+			r.Count("two-writers:" + s.Writer)
+			r.Count(fmt.Sprintf("two-writers:forced-overlap-happened=%v", ro.two.Overlap))
+			r.Count("two-writers:returns:" + ro.two.RetA + "," + ro.two.RetB)
+			statsMu.Lock()
+			stats.reads += ro.two.Reads
+			statsMu.Unlock()
+		}
 		if ro.big != nil {
 			r.Count("big-member:" + s.Var)
 		}
@@ -860,7 +888,7 @@ func generate(r *hxlib.Run, emit func(hxlib.Case)) {
 			}
 			statsMu.Unlock()
 		}
-		emit(hxlib.Case{Lines: lines, NonTrivial: nt, Kind: s.Writer})
+		emit(hxlib.Case{Lines: lines, NonTrivial: nt, Kind: s.Writer, NoModel: ro.two != nil || (isTwo(s.Writer) && ro.err != "")})
 	}
 	j := 0
 	for i, s := range scns {
@@ -898,6 +926,9 @@ func main() {
 		fmt.Sscan(os.Args[3], &n)
 		os.Exit(runBigZip(os.Args[2], n))
 	}
+	if len(os.Args) >= 4 && os.Args[1] == "__two" {
+		os.Exit(runTwo(os.Args[2], os.Args[3]))
+	}
 	if len(os.Args) >= 3 && os.Args[1] == "__trace" {
 		os.Exit(runTrace(os.Args[2]))
 	}
@@ -923,6 +954,9 @@ func main() {
 		if ro.res != nil {
 			fmt.Printf("killed=%v killcall=%q nkill=%d completed=%v reads=%d syscalls=%d writer=%q err=%q\n", ro.res.Killed, ro.res.KillCall,
 				ro.res.NKill, ro.res.Completed, ro.res.Reads, ro.res.Syscalls, ro.res.WriterOut, ro.res.Error)
+		}
+		if ro.two != nil {
+			fmt.Printf("two: %+v\n", *ro.two)
 		}
 		for _, v := range monitor(hxlib.Case{Lines: lines}, outs) {
 			fmt.Println("MONITOR:", v.Sig, "—", v.What)
